@@ -105,9 +105,11 @@ def run_tlc(
     meta = workdir / f"meta-{tag}"
     if meta.exists():
         shutil.rmtree(meta, ignore_errors=True)
+    heap = os.environ.get("VERIF_TLC_XMX") or ("2g" if str(workers) == "1" else "6g")
     cmd = [
         "java",
         "-XX:+UseParallelGC",
+        f"-Xmx{heap}",
         "-Xss64m",
         f"-Djava.io.tmpdir={workdir}",
         f"-DTLA-Library={SPEC}",
@@ -187,6 +189,8 @@ def run_tlc(
     res.raw_tail = "\n".join(tail)
     if rc == -9:
         raise MachineryError(f"TLC timed out after {timeout}s on {module} ({tag}); see {out_path}")
+    if rc in (137, -9 % 256) or (rc < 0 and rc != -9):
+        raise MachineryError(f"TLC was killed (rc={rc}, out of memory?) on {module} ({tag}); see {out_path}")
     if simulate is None and res.generated == 0 and not res.errors:
         raise MachineryError(f"TLC produced no state count for {module} ({tag}); rc={rc}\n{res.raw_tail}")
     if res.errors and not allow_errors:
